@@ -159,19 +159,35 @@ def installed07(sim: Sim07) -> Iterator[None]:
         life: dict[str, Any] = {"uid": str(uid), "t_start": loop.time(), "arrivals": [], "gets": [], "t_end": None,
                                 "idle_timeout": kw["settings"].queueing.idle_timeout}
         sim.lives.append(life)
+        pr = stream.pressure
         for item in list(getattr(q, "_queue", [])):
-            life["arrivals"].append([loop.time(), _rv_of(item)])
-        orig_put, orig_get = q.put, q.get
+            life["arrivals"].append([loop.time(), _rv_of(item), bool(pr.is_set())])
+        orig_put, orig_get, orig_get_nowait = q.put, q.get, q.get_nowait
 
         async def put(item: Any) -> Any:
-            life["arrivals"].append([loop.time(), _rv_of(item)])
+            # [time, version | "EOS", was the stream pressure raised with it?] — the watcher sets the pressure
+            # right before every put (since fix f370f06 also before the end-of-stream marker)
+            life["arrivals"].append([loop.time(), _rv_of(item), bool(pr.is_set())])
             return await orig_put(item)
 
         async def get() -> Any:
-            item = await orig_get()
+            life["in_get"] = True          # Queue.get() itself ends in self.get_nowait()
+            try:
+                item = await orig_get()
+            finally:
+                life["in_get"] = False
             life["gets"].append([loop.time(), _rv_of(item)])
             return item
 
+        def get_nowait() -> Any:
+            # called directly: the worker's timed-out wait that found the backlog non-empty (fix d07cc0b)
+            item = orig_get_nowait()
+            if not life.get("in_get"):
+                life["gets"].append([loop.time(), _rv_of(item)])
+                life["nowait"] = life.get("nowait", 0) + 1
+            return item
+
+        q.get_nowait = get_nowait  # type: ignore[method-assign]
         q.put = put  # type: ignore[method-assign]
         q.get = get  # type: ignore[method-assign]
         try:
@@ -181,6 +197,7 @@ def installed07(sim: Sim07) -> Iterator[None]:
             raise
         finally:
             life["t_end"] = loop.time()
+            life.pop("in_get", None)
 
     async def process_resource_causes(**kw: Any) -> Any:
         rec = cyc.get()
